@@ -832,6 +832,70 @@ def generate(o):
 
     dr = o.item("dataframe.description_reads", desc_reads, ["fresh", "keptPerFrame"])
 
+
+    # ---- FlatColumn.from_dict (the reader of the dictionary form; RelationSchema.from_dict and from_json go through it):
+    # the rewrites `if <tests>: dic = {**dic, "<key>": OrsoTypes.<M>}` in source order, then `return cls(**dic)`
+    PINNED_REWRITES = [[[["valueIs", "type", "0"]], "type", "_MISSING_TYPE"],
+                       [[["valueIs", "element_type", "0"]], "element_type", "_MISSING_TYPE"],
+                       [[["valueIs", "type", "ARRAY"], ["hasKey", "element_type"], ["isNull", "element_type"]], "type", "ARRAY"]]
+
+    def from_dict_rewrites():
+        fn = schema.func("from_dict", "FlatColumn")
+        values = dict((m[0], m[1]) for m in mem)
+        body = list(fn.body)
+        if body and isinstance(body[0], ast.Expr) and isinstance(body[0].value, ast.Constant) and isinstance(body[0].value.value, str):
+            body = body[1:]
+        if not body or ast.unparse(body[-1]) != "return cls(**dic)":
+            raise KeyError("from_dict does not end in `return cls(**dic)`")
+
+        def test(t):
+            u = ast.unparse(t)
+            if isinstance(t, ast.Compare) and len(t.ops) == 1:
+                l, op, r = t.left, t.ops[0], t.comparators[0]
+                lu = ast.unparse(l)
+                if isinstance(op, ast.Eq) and lu.startswith("dic.get(") and isinstance(l, ast.Call) and len(l.args) == 1 \
+                        and isinstance(l.args[0], ast.Constant) and isinstance(r, ast.Attribute) and r.attr == "value" \
+                        and _orso_attr(r.value) in values:
+                    return ["valueIs", l.args[0].value, values[_orso_attr(r.value)]]
+                if isinstance(op, ast.In) and isinstance(l, ast.Constant) and ast.unparse(r) == "dic":
+                    return ["hasKey", l.value]
+                if isinstance(op, ast.Is) and ast.unparse(r) == "None":
+                    if isinstance(l, ast.Subscript) and ast.unparse(l.value) == "dic" and isinstance(l.slice, ast.Constant):
+                        return ["isNull", l.slice.value]
+                    if isinstance(l, ast.Call) and lu.startswith("dic.get(") and len(l.args) == 1 and isinstance(l.args[0], ast.Constant):
+                        return ["getIsNone", l.args[0].value]
+            raise KeyError("test of unknown shape in from_dict: " + u)
+
+        out = []
+        for st in body[:-1]:
+            if not (isinstance(st, ast.If) and not st.orelse and len(st.body) == 1 and isinstance(st.body[0], ast.Assign)):
+                raise KeyError("statement of unknown shape in from_dict")
+            a = st.body[0]
+            v = a.value
+            if not (_is_name(a.targets[0], "dic") and isinstance(v, ast.Dict) and len(v.keys) == 2 and v.keys[0] is None
+                    and ast.unparse(v.values[0]) == "dic" and isinstance(v.keys[1], ast.Constant) and _orso_attr(v.values[1])):
+                raise KeyError("rewrite of unknown shape in from_dict")
+            tests = st.test.values if (isinstance(st.test, ast.BoolOp) and isinstance(st.test.op, ast.And)) else [st.test]
+            out.append([[test(t) for t in tests], v.keys[1].value, _orso_attr(v.values[1])])
+        return out
+
+    fdr = o.item("schema.from_dict_rewrites", from_dict_rewrites, PINNED_REWRITES)
+
+    def lean_test(x):
+        return "(.%s %s)" % (x[0], " ".join(lean_chars(a) for a in x[1:]))
+
+    td = HEADER + "namespace Gen.TypeNameDict\n"
+    td += "/-- one conjunct of a test in `FlatColumn.from_dict`: `dic.get(K) == <member>.value`, `K in dic`, `dic[K] is None`, `dic.get(K) is None` -/\n"
+    td += "inductive DictTest where\n  | valueIs (key val : List Char)\n  | hasKey (key : List Char)\n  | isNull (key : List Char)\n"
+    td += "  | getIsNone (key : List Char)\n  deriving Repr, DecidableEq\n"
+    td += "/-- `if <tests>: dic = {**dic, key: OrsoTypes.<member>}`, in source order; then `return cls(**dic)` -/\n"
+    td += "def fromDictRewrites : List (List DictTest × List Char × List Char) := %s\n" % lean_list(
+        fdr, lambda r: "(%s, %s, %s)" % (lean_list(r[0], lean_test), lean_chars(r[1]), lean_chars(r[2])))
+    td += "/-- `OrsoTypes._MISSING_TYPE.value`: the written form of an untyped column, which is not a type name -/\n"
+    td += "def untypedValue : List Char := %s\n" % lean_chars(dict((m[0], m[1]) for m in mem).get("_MISSING_TYPE", "0"))
+    td += "end Gen.TypeNameDict\n"
+    o.files["TypeNameDict.lean"] = td
+
     # ---------------------------------------------------------------- emit
     def cond(c):
         if c[0] == "member":
